@@ -306,6 +306,16 @@ impl HllSketch {
             )));
         }
 
+        // lg_arr sizes the coupon container (list / set mode) or the Hll4 aux table (HLL mode).
+        // A set is promoted before it reaches k / 8 slots and an aux table holds at most k
+        // entries at 3/4 load, so neither can exceed 2k slots.
+        if lg_arr > lg_config_k + 1 {
+            return Err(Error::deserial(format!(
+                "lg_arr must not exceed lg_k + 1 = {}, got {lg_arr}",
+                lg_config_k + 1
+            )));
+        }
+
         let hll_type = match extract_tgt_hll_type(mode_byte) {
             TGT_HLL4 => HllType::Hll4,
             TGT_HLL6 => HllType::Hll6,
@@ -320,55 +330,72 @@ impl HllSketch {
         let ooo = (flags & OUT_OF_ORDER_FLAG_MASK) != 0;
 
         // Deserialize based on mode
-        let mode =
-            match extract_cur_mode(mode_byte) {
-                CUR_MODE_LIST => {
-                    if preamble_ints != LIST_PREINTS {
-                        return Err(Error::deserial(format!(
-                            "LIST mode preamble: expected {}, got {}",
-                            LIST_PREINTS, preamble_ints,
-                        )));
-                    }
-
-                    let lg_arr = lg_arr as usize;
-                    let coupon_count = state as usize;
-                    let list = List::deserialize(cursor, lg_arr, coupon_count, empty, compact)?;
-                    Mode::List { list, hll_type }
+        let mode = match extract_cur_mode(mode_byte) {
+            CUR_MODE_LIST => {
+                if preamble_ints != LIST_PREINTS {
+                    return Err(Error::deserial(format!(
+                        "LIST mode preamble: expected {}, got {}",
+                        LIST_PREINTS, preamble_ints,
+                    )));
                 }
-                CUR_MODE_SET => {
-                    if preamble_ints != HASH_SET_PREINTS {
-                        return Err(Error::deserial(format!(
-                            "SET mode preamble: expected {}, got {}",
-                            HASH_SET_PREINTS, preamble_ints
-                        )));
-                    }
 
-                    let lg_arr = lg_arr as usize;
-                    let set = HashSet::deserialize(cursor, lg_arr, compact)?;
-                    Mode::Set { set, hll_type }
+                // A list always has 8 slots (it is promoted when they are full); older
+                // images may leave the field unset.
+                const LG_LIST_SIZE: u8 = 3;
+                if lg_arr > LG_LIST_SIZE {
+                    return Err(Error::deserial(format!(
+                        "LIST mode lg_arr must be {LG_LIST_SIZE}, got {lg_arr}"
+                    )));
                 }
-                CUR_MODE_HLL => {
-                    if preamble_ints != HLL_PREINTS {
-                        return Err(Error::deserial(format!(
-                            "HLL mode preamble: expected {}, got {}",
-                            HLL_PREINTS, preamble_ints
-                        )));
-                    }
+                let lg_arr = LG_LIST_SIZE as usize;
+                let coupon_count = state as usize;
+                let list = List::deserialize(cursor, lg_arr, coupon_count, empty, compact)?;
+                Mode::List { list, hll_type }
+            }
+            CUR_MODE_SET => {
+                if preamble_ints != HASH_SET_PREINTS {
+                    return Err(Error::deserial(format!(
+                        "SET mode preamble: expected {}, got {}",
+                        HASH_SET_PREINTS, preamble_ints
+                    )));
+                }
 
-                    match hll_type {
-                        HllType::Hll4 => {
-                            let cur_min = state;
-                            Array4::deserialize(cursor, cur_min, lg_config_k, lg_arr, compact, ooo)
-                                .map(Mode::Array4)?
-                        }
-                        HllType::Hll6 => Array6::deserialize(cursor, lg_config_k, compact, ooo)
-                            .map(Mode::Array6)?,
-                        HllType::Hll8 => Array8::deserialize(cursor, lg_config_k, compact, ooo)
-                            .map(Mode::Array8)?,
+                // A set starts with 32 slots and is promoted to a register array instead
+                // of growing beyond k / 8 slots.
+                const LG_INIT_SET_SIZE: u8 = 5;
+                if lg_arr < LG_INIT_SET_SIZE || lg_arr + 3 > lg_config_k {
+                    return Err(Error::deserial(format!(
+                        "SET mode lg_arr must be in [{LG_INIT_SET_SIZE}, lg_k - 3], got {lg_arr} for lg_k {lg_config_k}"
+                    )));
+                }
+                let lg_arr = lg_arr as usize;
+                let set = HashSet::deserialize(cursor, lg_arr, compact)?;
+                Mode::Set { set, hll_type }
+            }
+            CUR_MODE_HLL => {
+                if preamble_ints != HLL_PREINTS {
+                    return Err(Error::deserial(format!(
+                        "HLL mode preamble: expected {}, got {}",
+                        HLL_PREINTS, preamble_ints
+                    )));
+                }
+
+                match hll_type {
+                    HllType::Hll4 => {
+                        let cur_min = state;
+                        Array4::deserialize(cursor, cur_min, lg_config_k, lg_arr, compact, ooo)
+                            .map(Mode::Array4)?
+                    }
+                    HllType::Hll6 => {
+                        Array6::deserialize(cursor, lg_config_k, compact, ooo).map(Mode::Array6)?
+                    }
+                    HllType::Hll8 => {
+                        Array8::deserialize(cursor, lg_config_k, compact, ooo).map(Mode::Array8)?
                     }
                 }
-                mode => return Err(Error::deserial(format!("invalid mode: {mode}"))),
-            };
+            }
+            mode => return Err(Error::deserial(format!("invalid mode: {mode}"))),
+        };
 
         Ok(HllSketch { lg_config_k, mode })
     }
